@@ -1,6 +1,7 @@
 package checks
 
 import (
+	"encoding/json"
 	"fmt"
 	"strings"
 
@@ -329,7 +330,11 @@ func init() {
 					}
 					continue
 				}
-				doc := core.CanonValue(pruneUndeclared(r.Case.Schema.(sgen.M), r.Case.Schema.(sgen.M), r.Case.Docs[i], 0))
+				k29 := 0
+				doc := core.CanonValue(expectK29(r.Case.Schema.(sgen.M), r.Case.Schema.(sgen.M), pruneUndeclared(r.Case.Schema.(sgen.M), r.Case.Schema.(sgen.M), r.Case.Docs[i], 0), false, 0, &k29))
+				if k29 > 0 {
+					c.Count("c02", "K29 positions (struct-wrapped enum below a map value: expected as {\"Value\":v})")
+				}
 				out, err := core.ParseCanon(real.Canon)
 				if err != nil {
 					continue
@@ -608,4 +613,136 @@ func pruneUndeclared(root, s sgen.M, v any, depth int) any {
 		return out
 	}
 	return v
+}
+
+// wrappedEnum: does the generator wrap this enum in a struct (values of several Go kinds, or null-typed)?
+func wrappedEnum(s sgen.M) bool {
+	vals, ok := s["enum"].([]any)
+	if !ok {
+		return false
+	}
+	if t, ok := s["type"].(string); ok {
+		return t == "null"
+	}
+	if tl, ok := s["type"].([]any); ok && len(tl) == 1 {
+		return tl[0] == "null"
+	}
+	kind := ""
+	for _, v := range vals {
+		k := "interface{}"
+		switch v.(type) {
+		case string:
+			k = "string"
+		case bool:
+			k = "bool"
+		case int, int64, float64, json.Number:
+			k = "float64"
+		}
+		if kind == "" {
+			kind = k
+		} else if kind != k {
+			return true
+		}
+	}
+	return kind == "interface{}"
+}
+
+// expectK29 rewrites the expected output for known finding K29: a struct-wrapped enum BELOW A MAP VALUE is not
+// addressable, its pointer-receiver MarshalJSON is not called and the value re-appears as {"Value": v}.
+// Everywhere else the bare value is expected.
+func expectK29(root, s sgen.M, v any, belowMap bool, depth int, n *int) any {
+	if depth > 12 || s == nil || v == nil {
+		return v
+	}
+	if ref, ok := s["$ref"].(string); ok {
+		for _, kw := range []string{"$defs", "definitions"} {
+			if defs, ok := root[kw].(sgen.M); ok {
+				if d, ok := defs[ref[strings.LastIndex(ref, "/")+1:]].(sgen.M); ok {
+					return expectK29(root, d, v, belowMap, depth+1, n)
+				}
+			}
+		}
+		return v
+	}
+	if wrappedEnum(s) {
+		if belowMap {
+			*n++
+			return sgen.M{"Value": v}
+		}
+		return v
+	}
+	switch t := v.(type) {
+	case sgen.M:
+		props, _ := s["properties"].(sgen.M)
+		addl, _ := s["additionalProperties"].(sgen.M)
+		out := sgen.M{}
+		for k, x := range t {
+			if ps, declared := props[k].(sgen.M); declared {
+				// a struct field is as addressable as its struct; an optional struct is reached through a pointer
+				req := false
+				if rl, ok := s["required"].([]any); ok {
+					for _, r := range rl {
+						if r == k {
+							req = true
+						}
+					}
+				}
+				below := belowMap
+				_, hasDefault := ps["default"]
+				if !req && !hasDefault && !typeIsNillable(root, ps) {
+					below = false // an optional non-nillable field is a pointer: the pointee is addressable again
+				}
+				out[k] = expectK29(root, ps, x, below, depth+1, n)
+			} else if addl != nil && len(props) == 0 {
+				out[k] = expectK29(root, addl, x, true, depth+1, n)
+			} else {
+				out[k] = x
+			}
+		}
+		return out
+	case []any:
+		items, ok := s["items"].(sgen.M)
+		if !ok {
+			return v
+		}
+		out := make([]any, len(t))
+		for i, x := range t {
+			out[i] = expectK29(root, items, x, false, depth+1, n) // slice elements are addressable
+		}
+		return out
+	}
+	return v
+}
+
+// typeIsNillable: does the property become a slice / map / interface{} (no pointer wrapping when optional)?
+func typeIsNillable(root, s sgen.M) bool {
+	if ref, ok := s["$ref"].(string); ok {
+		for _, kw := range []string{"$defs", "definitions"} {
+			if defs, ok := root[kw].(sgen.M); ok {
+				if d, ok := defs[ref[strings.LastIndex(ref, "/")+1:]].(sgen.M); ok {
+					_ = d
+					return false // a reference to a definition is a named type: wrapped in a pointer
+				}
+			}
+		}
+		return false
+	}
+	if _, isEnum := s["enum"]; isEnum {
+		return false
+	}
+	switch t := s["type"].(type) {
+	case string:
+		if t == "array" {
+			return true
+		}
+		if t == "object" {
+			props, _ := s["properties"].(sgen.M)
+			return len(props) == 0 // a property-less object is a map
+		}
+		return false
+	case nil:
+		_, hasProps := s["properties"]
+		return !hasProps // untyped: interface{}
+	}
+	return false
 }
